@@ -66,12 +66,24 @@ class Monitor(Observer):
         try:
             c1 = copy.deepcopy(root)
             nodes = [m for m in c1.members if isinstance(m, bt.core.StrategyBase)]
-            nd = ctx.rng.choice(nodes)
-            attr = ctx.rng.choice(["positions", "positions", "outlays"])
-            v1 = getattr(nd, attr)
         except Exception as e:  # noqa
             ctx.count("frame-oracle-raised:" + E.classify_exc(e))
             return
+        if spec.get("oracle_all"):
+            todo = [(nd, a) for nd in nodes for a in ("positions", "outlays")]
+        else:
+            todo = [(ctx.rng.choice(nodes), ctx.rng.choice(["positions", "positions", "outlays"]))]
+        for nd, attr in todo:
+            if self._frame_oracle_one(bt, spec, nd, attr, step, i):
+                return
+
+    def _frame_oracle_one(self, bt, spec, nd, attr, step, i):
+        ctx = self.ctx
+        try:
+            v1 = getattr(nd, attr)
+        except Exception as e:  # noqa
+            ctx.count("frame-oracle-raised:" + E.classify_exc(e))
+            return False
         exp = {}
         for x in nd.members:
             if isinstance(x, bt.core.SecurityBase):
@@ -94,6 +106,8 @@ class Monitor(Observer):
         if badc:
             ctx.violation("C08/stale-read:" + attr + ":assembled-frame", "after op %d %s: %s.%s does not show the current histories: %s"
                           % (i, step["op"]["op"], nd.full_name, attr, badc), {"spec": spec, "upto": i})
+            return True
+        return False
 
     def after(self, bt, spec, root, dates, step, i):
         ctx = self.ctx
@@ -189,16 +203,20 @@ def cached_reads(rng, spec):
     secs = [[0, 0], [0, 1], [1, 0], [1, 1], [2]]
     for d in range(0, T):
         ops.append({"op": "update", "d": d})
+        ops.append({"op": "read", "path": [], "g": 4, "attr": "positions"})
         ops.append({"op": "read", "path": rng.choice([[], [0], [1]]), "g": 4, "attr": rng.choice(["positions", "outlays", "positions"])})
-        for _ in range(rng.randint(1, 3)):
+        # the ticker held under both sub-strategies is traded on every date, plus a few others
+        ops.append({"op": "transact", "path": rng.choice([[0, 0], [1, 0]]), "q": float(rng.randint(1, 9)), "update": False, "price": None})
+        for _ in range(rng.randint(0, 2)):
             ops.append({"op": "transact", "path": rng.choice(secs), "q": float(rng.randint(1, 9)), "update": False, "price": None})
         ops.append({"op": "update", "d": d})
         ops.append({"op": "observe", "on": "real"})
     spec["ops"] = ops
+    spec["oracle_all"] = True
 
 
 def run(ctx, bt):
-    run_engine_protocol(ctx, bt, ctx.scale(12, 150), [Monitor(ctx, 0.5)], None, None, spec_kwargs={"fi_tree": False},
+    run_engine_protocol(ctx, bt, ctx.scale(12, 150), [Monitor(ctx, 1.0)], None, None, spec_kwargs={"fi_tree": False},
                         spec_mutator=cached_reads, corr_name="step[C08]:read-trade-silently-update-read")
     for sp in corpus():
         run_history_observed(bt, copy.deepcopy(sp), ctx.rng, len(sp["ops"]), [Monitor(ctx, 1.0)], ctx)
